@@ -12,7 +12,8 @@ RULE = ("Each case = a generated commit/merge/delete history (1-5 commits of 0-1
         "vocabulary, deletes by key/docnum/term, updates, merge=False|default|optimize, posting block limit "
         "1/2/3/128) plus 6 generated query trees (all public query types, depth<=4, Or fan-out up to 7). Every "
         "query is run through search(limit=None), limit=1/2/|hits|-1 (len(), docs()), scored=False, sortedby a "
-        "posting field and a column field, terms=True, docs_for_query and per-segment Query.docs and compared "
+        "posting field and a column field, terms=True, docs_for_query, per-segment Query.docs and Query.docs on the "
+        "top-level searcher and compared "
         "with a set-algebra reference evaluator over the document model. A (history, query) pair is non-trivial "
         "when the reference result is neither empty nor all documents and the index has >=2 segments or "
         "physically present deleted documents; distinct by SHA-1 of (query shape, segment count, deleted count, "
@@ -23,7 +24,9 @@ RULE = ("Each case = a generated commit/merge/delete history (1-5 commits of 0-1
         "(so words repeat and a phrase has several candidate chains of positions) in 1-3 segments with deletions; every "
         "phrase of 2 and 3 words over the vocabulary plus generated 4-5 word phrases, each with slop 1..4, through "
         "docs_for_query and search against the reference chain matcher; non-trivial = a >=3-word phrase with slop >=2 "
-        "matching a document that repeats its second word.")
+        "matching a document that repeats its second word. multiseg: 2-4 unmerged segments of 1-5 documents over three "
+        "words; every binary operator (AndNot, AndMaybe, Require, And, Or, And-Not, AndNot over an Or) over every ordered "
+        "pair of words through all access paths.")
 ASSUMPTIONS = [
     "reference evaluator (wv/refquery.py) encodes the documented meaning of each query type",
     "FuzzyTerm is checked against an interval [Levenshtein, Damerau-Levenshtein] because the docs do not fix "
@@ -79,6 +82,8 @@ def check_query(s, qj, docs, out, nseg, ndel, tag=""):
     else:
         seg = _keys(s, list(q.docs(s)))
     paths["per_segment_docs"] = seg
+    # the same on the top-level searcher: matchers over all segments at once (MultiMatcher)
+    paths["top_level_docs"] = _keys(s, list(q.docs(s)))
 
     for name, got in paths.items():
         gs = set(got)
@@ -90,7 +95,9 @@ def check_query(s, qj, docs, out, nseg, ndel, tag=""):
             out.fail("c01.missing:%s%s" % (name, tag), {"q": qj, "missing": sorted(missing), "got": sorted(gs)})
         if extra:
             out.fail("c01.extra:%s%s" % (name, tag), {"q": qj, "extra": sorted(extra), "expected": sorted(hi)})
-        if gs != fullset:
+        if gs != fullset and not (name == "top_level_docs" and lo != hi):
+            # (a fuzzy term on a transposition is expanded per segment by one path and over the whole reader by the
+            # other - the recorded C19 finding - so that path is only held to the reference interval then)
             out.fail("c01.paths_disagree:" + name, {"q": qj, "limit_none": sorted(fullset), name: sorted(gs)})
     return lo, hi
 
@@ -251,8 +258,62 @@ def run_phrases(case, out):
     out.label("segments_%d" % len(case["segments"]), "alphabet_%d" % len(al))
 
 
+# ---------------------------------------------------------------------------------------------------------
+# every binary operator over every pair of three words, on several tiny segments: the alignment cases of
+# cursors that run off the end of one segment and continue in the next
+
+def strategy_multiseg(tier):
+    doc = st.lists(st.sampled_from(["a", "b", "c"]), max_size=3, unique=True)
+    return st.fixed_dictionaries({
+        "segments": st.lists(st.lists(doc, min_size=1, max_size=5), min_size=2, max_size=4),
+        "delete": st.lists(st.integers(0, 19), max_size=2, unique=True),
+    })
+
+
+def run_multiseg(case, out):
+    from whoosh.filedb.filestore import RamStorage
+    ix = RamStorage().create_index(corpus.build_schema({}))
+    docs = []
+    for seg in case["segments"]:
+        w = ix.writer()
+        for toks in seg:
+            dd = {"k": "k%d" % len(docs), "t": list(toks), "w": [], "n": len(docs), "d": None, "g": None}
+            docs.append(dd)
+            w.add_document(**corpus.doc_kwargs(dd))
+        w.commit(merge=False)
+    dels = sorted(set("k%d" % (j % len(docs)) for j in case["delete"]))
+    if dels:
+        w = ix.writer()
+        for k in dels:
+            w.delete_by_term("k", k)
+        w.commit(merge=False)
+        docs = [dd for dd in docs if dd["k"] not in dels]
+    nseg, ndel = corpus.layout_signature(ix)
+    T = lambda x: {"op": "term", "f": "t", "x": x, "boost": 1.0}
+    nt = []
+    with ix.searcher() as s:
+        for x in "abc":
+            for y in "abc":
+                if x == y:
+                    continue
+                for qj in ({"op": "andnot", "a": T(x), "b": T(y)}, {"op": "andmaybe", "a": T(x), "b": T(y)},
+                           {"op": "require", "a": T(x), "b": T(y)}, {"op": "and", "qs": [T(x), T(y)], "boost": 1.0},
+                           {"op": "or", "qs": [T(x), T(y)], "boost": 1.0},
+                           {"op": "and", "qs": [T(x), {"op": "not", "q": T(y)}], "boost": 1.0},
+                           {"op": "andnot", "a": {"op": "or", "qs": [T(x), T(y)], "boost": 1.0},
+                            "b": T([z for z in "abc" if z not in (x, y)][0])}):
+                    lo, hi = check_query(s, qj, docs, out, nseg, ndel, tag=":multiseg")
+                    out.units += 1
+                    if 0 < len(hi) < len(docs):
+                        nt.append(1)
+    out.nontrivial = bool(nt) and nseg >= 2
+    out.key = case
+    out.label("segments_%d" % nseg)
+
+
 SUBS = {
     "search": Sub(run, strategy, quick=50, thorough=300, quick_shards=8),
     "bigsegment": Sub(run_big, strategy_big, quick=3, thorough=60, quick_shards=8),
+    "multiseg": Sub(run_multiseg, strategy_multiseg, quick=25, thorough=300, quick_shards=8),
     "phrases": Sub(run_phrases, strategy_phrases, quick=30, thorough=300, quick_shards=8),
 }
